@@ -556,6 +556,18 @@ fn vfy_gen(thorough: bool, out: &mut impl Write) {
       }
     }
   }
+  // the 64 bytes of a real point cut elsewhere than in the middle (0+64, 16+48, 31+33, 33+31, 48+16, 64+0): each coordinate has the
+  // wrong length although the total is right
+  for (fam, alg, x0, y0, sig0) in [("P-256", "ES256", &r_x, &r_y, &r_sig), ("secp256k1", "ES256K", &k_x, &k_y, &k_sig)] {
+    let mut all = vfy_b64dec(x0).unwrap();
+    all.extend(vfy_b64dec(y0).unwrap());
+    for cut in [0usize, 16, 31, 32, 33, 48, 64] {
+      for sig in sigs(sig0).iter().take(2) {
+        let key = format!(r#"{{"kty":"EC","crv":"{}","x":"{}","y":"{}"}}"#, fam, b64(&all[..cut]), b64(&all[cut..]));
+        emit("ec", alg, &key, sig, false, false);
+      }
+    }
+  }
   // keys of the other families
   for key in [r#"{"kty":"RSA","n":"AQAB","e":"AQAB"}"#, r#"{"kty":"oct","k":"AQAB"}"#] {
     for alg in algs {
@@ -877,6 +889,15 @@ pub fn gen(thorough: bool, seed: u64, out: &mut impl Write) {
         if std::str::from_utf8(&emb).is_ok() {
           writeln!(out, "C01 general {} ~ k:7:- 2 {} {} {}", hex(&emb), mk(&ha, 7), mk(&hb, 7), ptab(&[ha.clone(), hb.clone()])).unwrap();
           writeln!(out, "C01 general {} ~ k:7:- 2 {} {} {}", hex(&emb), mk(&ha, 7), mk(&hb, 9), ptab(&[ha.clone(), hb.clone()])).unwrap();
+          // a signature whose protected header does not deserialise (not JSON / an algorithm of another signer: absent from the
+          // parse table) before, between and after the others: it is an error of its own, the others keep THEIR headers
+          for und in [b"not json".to_vec(), br#"{"alg":"XYZ","kid":"other"}"#.to_vec()] {
+            let u = mk(&und, 7);
+            writeln!(out, "C01 general {} ~ k:7:- 2 {} {} {}", hex(&emb), u, mk(&hb, 7), ptab(&[ha.clone(), hb.clone()])).unwrap();
+            writeln!(out, "C01 general {} ~ k:7:- 3 {} {} {} {}", hex(&emb), mk(&ha, 7), u, mk(&hb, 7), ptab(&[ha.clone(), hb.clone()])).unwrap();
+            writeln!(out, "C01 general {} ~ k:7:- 3 {} {} {} {}", hex(&emb), u, mk(&ha, 7), mk(&hb, 7), ptab(&[ha.clone(), hb.clone()])).unwrap();
+            writeln!(out, "C01 general {} ~ k:7:- 3 {} {} {} {}", hex(&emb), mk(&ha, 7), mk(&hb, 7), u, ptab(&[ha.clone(), hb.clone()])).unwrap();
+          }
         }
       }
     }
